@@ -17,6 +17,7 @@ EXPECTED = [
     'empty/purged-iff-old-enough',
     'trashcli.empty.parse_reply.parse_reply/post/consent-iff-reply-begins-with-y',
     'lemma/str.lower-y/all-code-points',
+    'trashcli.empty.is_input_interactive.is_input_interactive/post/interactive-iff-stdin-is-a-terminal',
     'consent/purge-only-after-a-y-reply',
     'consent/no-purge-on-end-of-input',
     'consent/dry-run-flag-reaches-the-emptier',
